@@ -305,23 +305,10 @@ theorem findEarlierPara_placed (lh : Nat → Rat) (id idx : Nat) (st : PStyle) (
         simp only [placedLines]; exact paraPlaced_take _ _ _ _ _
       · cases h
 
-theorem findEarlierGo_err_found (inCol noIdx : Bool) : (fs : List CFrag) →
-    (findEarlierGo inCol noIdx fs).err = true → (findEarlierGo inCol noIdx fs).found = none
-  | [] => by simp [findEarlierGo]
-  | x :: xs => by
-    have ih := findEarlierGo_err_found inCol noIdx xs
-    rw [findEarlierGo]
-    dsimp only
-    split
-    · exact ih
-    · rename_i hne
-      repeat' split
-      all_goals first | (intro h; simp at h; done) | (intro h; exact absurd h hne) | simp_all
-
 mutual
-theorem findEarlierGo_placed (lh : Nat → Rat) (inCol noIdx : Bool) : (fs : List CFrag) →
+theorem findEarlierGo_placed (lh : Nat → Rat) (inCol : Bool) : (fs : List CFrag) →
     ∀ (kept : List CFrag) (r : Resume),
-    (findEarlierGo inCol noIdx fs).found = some (kept, r) →
+    (findEarlierGo inCol fs).found = some (kept, r) →
     ∀ pie, ∀ p ∈ placedList lh kept pie, p ∈ placedList lh fs pie
   | [] => by
     intro kept r h
@@ -331,101 +318,66 @@ theorem findEarlierGo_placed (lh : Nat → Rat) (inCol noIdx : Bool) : (fs : Lis
     rw [findEarlierGo] at h
     dsimp only at h
     split at h
-    · rename_i herr
-      rw [findEarlierGo_err_found inCol noIdx xs herr] at h
-      cases h
-    · split at h
-      · rename_i kept0 r0 hfound
-        simp only [Option.some.injEq, Prod.mk.injEq] at h
-        obtain ⟨rfl, rfl⟩ := h
-        have ih := findEarlierGo_placed lh inCol noIdx xs kept0 r0 hfound false
-        intro p hp
-        simp only [placedList, List.mem_append] at hp ⊢
-        rcases hp with hp | hp
-        · left; exact hp
-        · right; exact ih p hp
-      · rename_i hnone
-        split at h
-        · rw [hnone] at h; cases h
+    · rename_i kept0 r0 hfound
+      simp only [Option.some.injEq, Prod.mk.injEq] at h
+      obtain ⟨rfl, rfl⟩ := h
+      have ih := findEarlierGo_placed lh inCol xs kept0 r0 hfound false
+      intro p hp
+      simp only [placedList, List.mem_append] at hp ⊢
+      rcases hp with hp | hp
+      · left; exact hp
+      · right; exact ih p hp
+    · rename_i hnone
+      split at h
+      · rw [hnone] at h; cases h
+      · split at h
+        · simp only [Option.some.injEq, Prod.mk.injEq] at h
+          obtain ⟨rfl, rfl⟩ := h
+          intro p hp
+          simp only [placedList, List.mem_append, List.append_nil] at hp ⊢
+          left; exact hp
         · split at h
           · split at h
-            · cases h
-            · simp only [Option.some.injEq, Prod.mk.injEq] at h
+            · rename_i x' r1 hfe
+              simp only [Option.some.injEq, Prod.mk.injEq] at h
               obtain ⟨rfl, rfl⟩ := h
+              have hsub := findEarlierFrag_placed lh inCol x x' r1 hfe
               intro p hp
               simp only [placedList, List.mem_append, List.append_nil] at hp ⊢
-              left; exact hp
-          · split at h
-            · split at h
-              · rename_i x' r1 hfe
-                split at h
-                · cases h
-                · simp only [Option.some.injEq, Prod.mk.injEq] at h
-                  obtain ⟨rfl, rfl⟩ := h
-                  have hsub := findEarlierFrag_placed lh inCol x x' r1 hfe
-                  intro p hp
-                  simp only [placedList, List.mem_append, List.append_nil] at hp ⊢
-                  left
-                  exact hsub _ p hp
-              · cases h
-              · cases h
+              left
+              exact hsub _ p hp
             · cases h
+          · cases h
 theorem findEarlierFrag_placed (lh : Nat → Rat) (inCol : Bool) : (x : CFrag) → ∀ (x' : CFrag) (r : Resume),
-    findEarlierFrag inCol x = .found x' r →
+    findEarlierFrag inCol x = some (x', r) →
     ∀ pie, ∀ p ∈ placedLines lh x' pie, p ∈ placedLines lh x pie
   | .para id idx st n g lines => by
     intro x' r h
     simp only [findEarlierFrag] at h
-    split at h
-    · rename_i f r0 hp
-      simp only [EarlierIn.found.injEq] at h
-      obtain ⟨rfl, rfl⟩ := h
-      exact findEarlierPara_placed lh id idx st n g lines _ _ hp
-    · cases h
+    exact findEarlierPara_placed lh id idx st n g lines _ _ h
   | .block id idx st g kids => by
     intro x' r h
     simp only [findEarlierFrag] at h
     split at h
+    · rename_i kids' r0 hfound
+      simp only [Option.some.injEq, Prod.mk.injEq] at h
+      obtain ⟨rfl, rfl⟩ := h
+      intro pie
+      simp only [placedLines]
+      exact findEarlierGo_placed lh inCol kids kids' r0 hfound pie
     · cases h
-    · split at h
-      · rename_i kids' r0 hfound
-        simp only [EarlierIn.found.injEq] at h
-        obtain ⟨rfl, rfl⟩ := h
-        intro pie
-        simp only [placedLines]
-        exact findEarlierGo_placed lh inCol false kids kids' r0 hfound pie
-      · cases h
   | .cols id idx st g kids => by
     intro x' r h
-    simp only [findEarlierFrag] at h
-    split at h
-    · cases h
-    · split at h
-      · rename_i kids' r0 hfound
-        simp only [EarlierIn.found.injEq] at h
-        obtain ⟨rfl, rfl⟩ := h
-        intro pie
-        simp only [placedLines]
-        exact findEarlierGo_placed lh inCol true kids kids' r0 hfound pie
-      · cases h
+    simp [findEarlierFrag] at h
   | .column _ _ _ _ _ => by
     intro x' r h
     simp [findEarlierFrag] at h
 end
 
 theorem findEarlierList_placed (lh : Nat → Rat) (inCol : Bool) (fs kept : List CFrag) (r : Resume)
-    (h : findEarlierList inCol fs = .found kept r) :
-    ∀ pie, ∀ p ∈ placedList lh kept pie, p ∈ placedList lh fs pie := by
-  unfold findEarlierList at h
-  dsimp only at h
-  split at h
-  · cases h
-  · split at h
-    · rename_i k r0 hfd
-      simp only [EarlierList.found.injEq] at h
-      obtain ⟨rfl, rfl⟩ := h
-      exact findEarlierGo_placed lh inCol false fs _ _ hfd
-    · cases h
+    (h : findEarlierList inCol fs = some (kept, r)) :
+    ∀ pie, ∀ p ∈ placedList lh kept pie, p ∈ placedList lh fs pie :=
+  findEarlierGo_placed lh inCol fs _ _ h
 
 /-! ### used geometry of a returned fragment -/
 
@@ -481,13 +433,13 @@ theorem prepareC_bs_le (isCol : Bool) (c : Ctx) (st : PStyle) (y bs : Rat) (skip
 /-! ### hypotheses -/
 
 mutual
-/-- `PStyle.DecoOk` (stage 1) in every paragraph and block; for a container `margin-bottom + padding-bottom +
-border-bottom ≥ 0`: `block_box_layout` lays a finished container out a second time with `bottom_space` enlarged by
-that sum — a negative sum *shrinks* the bottom space (witness `container_negative_margin_overflows`). -/
+/-- `PStyle.DecoOk` (stage 1) in every paragraph and block; for a container only `padding-bottom + border-bottom ≥ 0`
+(CSS has no negative paddings or borders).  Nothing is asked of the container's `margin-bottom`: `block_box_layout`
+lays a finished container out a second time only with a *larger* bottom space (`columns_bottom_space > 0`). -/
 def DecoOk : ColBox → Prop
   | .para _ _ _ st => st.DecoOk
   | .block _ st kids => st.DecoOk ∧ DecoOkList kids
-  | .columns _ st _ _ kids => 0 ≤ st.pb + st.bb ∧ 0 ≤ st.mb + st.pb + st.bb ∧ DecoOkList kids
+  | .columns _ st _ _ kids => 0 ≤ st.pb + st.bb ∧ DecoOkList kids
 def DecoOkList : List ColBox → Prop
   | [] => True
   | b :: bs => DecoOk b ∧ DecoOkList bs
@@ -549,13 +501,10 @@ theorem concludeKid_fits (lh : Nat → Rat) (c : CCtx) (bs : Rat) (index : Nat) 
       unfold concludeKid at h
       dsimp only at h
       split at h
-      · simp only [Prod.mk.injEq, Option.some.injEq] at h
-        obtain ⟨rfl, rfl⟩ := h
-        exact linesOk_nil c bs
       · rename_i kept r' hearlier
         simp only [Prod.mk.injEq, Option.some.injEq] at h
         obtain ⟨rfl, rfl⟩ := h
-        have hfound : findEarlierList c.inColumn s.newChildren = .found kept r' := by
+        have hfound : findEarlierList c.inColumn s.newChildren = some (kept, r') := by
           split at hearlier
           · exact hearlier
           · cases hearlier
@@ -575,7 +524,6 @@ theorem concludeKid_fits (lh : Nat → Rat) (c : CCtx) (bs : Rat) (index : Nat) 
       unfold concludeKid at h
       dsimp only at h
       split at h
-      · simp at h
       · simp at h
       · split at h
         · simp at h
@@ -808,7 +756,7 @@ theorem columnsLayout_fits (lh : Nat → Rat) (env : ColEnv) (he : EnvFits lh en
 
 theorem columnsBoxLayout_fits (lh : Nat → Rat) (env : ColEnv) (he : EnvFits lh env) (c : CCtx) (id idx : Nat)
     (st : PStyle) (cs : ColSpec) (flags : List Bool) (nkids fuel : Nat) (y bs : Rat) (skip : Option Resume)
-    (cb pie : Bool) (adjL : List Rat) (hdeco : 0 ≤ st.mb + st.pb + st.bb) (f : CFrag)
+    (cb pie : Bool) (adjL : List Rat) (f : CFrag)
     (h : (columnsBoxLayout env c id idx st cs flags nkids fuel y bs skip cb pie adjL).frag = some f) :
     LinesOk c bs (placedLines lh f pie) ∧ f.geo.pb = st.pb ∧ f.geo.bb = st.bb := by
   unfold columnsBoxLayout at h
@@ -876,7 +824,7 @@ theorem box_fits (lh : Nat → Rat) : (box : ColBox) → DecoOk box → LhOk lh 
     unfold LhOk at hl
     simp only [layoutBox] at hf
     have := columnsBoxLayout_fits lh _ ?_ c id idx st cs flags kids.length (sizeKids kids + 1) y bs skip cb pie adjL
-      hd.2.1 f hf
+      f hf
     · exact ⟨this.1, Or.inl (by simpa [ColBox.st] using this.2)⟩
     · constructor
       · intro c' a x y' bs' σ pie' f' hf'
@@ -887,9 +835,9 @@ theorem box_fits (lh : Nat → Rat) : (box : ColBox) → DecoOk box → LhOk lh 
         apply linesOk_placedList_anyPie lh c' bs' _ pie'
         apply linesOk_mono c' bs' _ _
           (prepareC_bs_le true c'.base (columnStyle st) y' bs' σ false pie' [] (columnStyle_decoOk st))
-        exact kids_fits lh kids hd.2.2 hl c' (columnStyle st) _ 0 _ a _ pie' _ (by simp [placedList, linesOk_nil])
+        exact kids_fits lh kids hd.2 hl c' (columnStyle st) _ 0 _ a _ pie' _ (by simp [placedList, linesOk_nil])
       · intro c' i y' bs' σ pie' adjL' f' hf'
-        exact nth_fits lh kids hd.2.2 hl c' i y' bs' σ cb pie' adjL' f' hf'
+        exact nth_fits lh kids hd.2 hl c' i y' bs' σ cb pie' adjL' f' hf'
 theorem nth_fits (lh : Nat → Rat) : (kids : List ColBox) → DecoOkList kids → LhOkList lh kids → ∀ (c : CCtx) (i : Nat)
     (y bs : Rat) (skip : Option Resume) (cb pie : Bool) (adjL : List Rat) (f : CFrag),
     (layoutNth c kids i y bs skip cb pie adjL).frag = some f → LinesOk c bs (placedLines lh f pie)
